@@ -346,6 +346,25 @@ def _install_native_log_probe():
     _NATIVE_LOG["installed"] = True
 
 
+def run(coro):
+    """Run a coroutine to completion (sequential coroutine mode: awaits run their callee at once)."""
+    import asyncio
+
+    return asyncio.run(coro)
+
+
+def since_last(trace, marker):
+    """The events recorded after the last occurrence of `marker` in a ghost trace (the marker's own
+    entry excluded). After a loop havoc the trace is 'unknown prefix + what this iteration recorded'."""
+    idx = max(i for i, x in enumerate(trace) if (x == marker or (isinstance(x, tuple) and x and x[0] == marker)))
+    return list(trace[idx + 1 :])
+
+
+def last_marker(trace, marker):
+    """The last entry equal to `marker` or a tuple starting with it."""
+    return [x for x in trace if (x == marker or (isinstance(x, tuple) and x and x[0] == marker))][-1]
+
+
 def unstubbed(f):
     """The real function f even when a lemma installs a contract stub for it (used by recursive
     contracts: the outermost call runs the real body, nested calls go through the contract)."""
@@ -398,6 +417,33 @@ def _register_helper_models():
         return len(I.path.ghost.get("g:log.exception", [])) > 0
 
     stdlib.MODELS[exception_logged] = m_exception_logged
+
+    def m_run(I, args, kwargs):
+        return I.models.await_value(I, args[0], None, None)
+
+    def _tail_of(trace):
+        if isinstance(trace, SymList):
+            return trace.tail
+        return trace
+
+    def m_since_last(I, args, kwargs):
+        trace, marker = args
+        tail = _tail_of(trace)
+        hits = [i for i, x in enumerate(tail) if (x == marker or (isinstance(x, tuple) and x and x[0] == marker))]
+        if not hits:
+            raise Unsupported("since_last: marker not in the known part of the trace")
+        return list(tail[hits[-1] + 1 :])
+
+    def m_last_marker(I, args, kwargs):
+        trace, marker = args
+        hits = [x for x in _tail_of(trace) if (x == marker or (isinstance(x, tuple) and x and x[0] == marker))]
+        if not hits:
+            raise Unsupported("last_marker: marker not in the known part of the trace")
+        return hits[-1]
+
+    stdlib.MODELS[run] = m_run
+    stdlib.MODELS[since_last] = m_since_last
+    stdlib.MODELS[last_marker] = m_last_marker
     stdlib.MODELS[unstubbed] = lambda I, a, k: _Unstubbed(getattr(a[0], "__func__", a[0]))
     stdlib.MODELS[ghost] = m_ghost
     stdlib.MODELS[nondet] = m_nondet
@@ -513,6 +559,12 @@ class LoopSpec:
         from .core import SObj
 
         for m in self.modifies:
+            if m.startswith("ghost:"):
+                key = "g:" + m[6:]
+                n0 = I.path.fresh_int(f"havoc.{m}.len")
+                I.path.assume(n0 >= 0)
+                I.path.ghost[key] = SymList(n0)
+                continue
             if m.startswith("self."):
                 obj = frame.locals["self"]
                 attr = m[5:]
